@@ -20,6 +20,8 @@ func init() {
 	register(&Rule{ID: "C01.R6", Prop: "C01", Floor: 60, Doc: "lock discipline: guarded Manager fields are accessed only with Manager.mu held", Run: c01r6})
 	register(&Rule{ID: "C01.R8", Prop: "C01", Floor: 1, Doc: "parent linkage: the apply step applies only a block whose ParentID equals the tip's id", Run: c01r8})
 	register(&Rule{ID: "C01.R9", Prop: "C01", Floor: 16, Doc: "the store's revert side is the inverse of its apply side (the supplements later validation reads are restored exactly)", Run: c02r1})
+	register(&Rule{ID: "C01.R13", Prop: "C01", Floor: 1, Doc: "the states the pre-validated entry trusts are bound to their blocks: the checkpoint / header / id checks of the sync worker guard its success (same checks as C11.R2)", Run: c11r2})
+	register(&Rule{ID: "C01.R12", Prop: "C01", Floor: 1, Doc: "the state the reorg gate compares is advanced in every completed iteration of the batch loop (also for blocks already stored)", Run: c01r12})
 	register(&Rule{ID: "C01.R11", Prop: "C01", Floor: 1, Doc: "the store's zero-timestamp shortcut covers no height at which core reads the ancestor timestamp (bounds on height − Oak height derived from both comparisons)", Run: c01r11})
 	register(&Rule{ID: "C01.R10", Prop: "C01", Floor: 1, Doc: "a rolled-back reorg leaves no best-chain entries behind: the store's revert step deletes the entry above the new tip", Run: func(c *Ctx) {
 		s := getStoreRoles(c.P)
@@ -690,4 +692,71 @@ func c01r11(c *Ctx) {
 		}
 	}
 	ob.OK("%d shortcut return(s), all strictly above the last height at which core reads the timestamp", shortcuts)
+}
+
+// c01r12: the state handed to the reorg gate is the state of the *last* block of the submitted batch. The loop over
+// the batch carries it in one variable; every iteration that completes — also the one for a block the store already
+// has — assigns that variable, so that resubmitting known blocks above the tip (catch-up after a stop in the middle
+// of a reorg, or after a rolled-back reorg) still moves the node onto them.
+func c01r12(c *Ctx) {
+	r := getChainRoles(c.P)
+	n := 0
+	for _, f := range r.gatedCallers() {
+		g := f.Graph()
+		seen := map[types.Object]bool{}
+		for _, wc := range walkerCalls(r, f) {
+			if !wc.gated || wc.subject == nil || seen[wc.subject] {
+				continue
+			}
+			seen[wc.subject] = true
+			subj := wc.subject
+			writes := func(nd *cfgx.Node) bool {
+				if nd.AST == nil {
+					return false
+				}
+				for _, w := range f.WritesIn(nd.AST, false) {
+					if f.ObjOf(w.LHS) == subj {
+						return true
+					}
+				}
+				return false
+			}
+			for _, head := range g.Nodes {
+				rs, ok := head.AST.(*ast.RangeStmt)
+				if !ok {
+					continue
+				}
+				inBody := false
+				for _, nd := range g.Nodes {
+					if nd.AST != nil && nd != head && containsNode(rs.Body, nd.AST) && writes(nd) {
+						inBody = true
+					}
+				}
+				if !inBody {
+					continue
+				}
+				n++
+				c.VisitGraph(f)
+				ob := c.Ob(f, "gate-state-advanced-every-iteration:"+subj.Name(), rs.Pos())
+				var body *cfgx.Edge
+				for _, e := range head.Succs {
+					if e.Kind == cfgx.Br0 {
+						body = e
+					}
+				}
+				if body == nil {
+					ob.Unknown("loop body edge not found")
+					continue
+				}
+				if v, skip := g.Reach([]*cfgx.Visit{cfgx.StartAfter(body, 0)}, writes)[head]; skip {
+					ob.Bad(c.Witness(v), "an iteration of the loop at %s can finish without assigning %s, the state the reorg gate compares with the tip: a batch of blocks the store already knows (resubmitted after a stop or a rolled-back reorg) is judged by a stale state and the node does not move onto it", c.P.Pos(rs.Pos()), subj.Name())
+				} else {
+					ob.OK("every completed iteration assigns the gate's state")
+				}
+			}
+		}
+	}
+	if n == 0 {
+		ir.Fail("no batch loop carrying the reorg gate's state found")
+	}
 }
